@@ -129,6 +129,7 @@ type Unit struct {
 	instBudget  int // instantiations left for the witness being processed
 	seqFacts []*seqFact
 	sigLog   []*sigEntry
+	hashLog  []*hashEntry
 	StoresSeen int
 	curMethod string
 	shapesSeen map[string]bool
